@@ -61,6 +61,17 @@ def case_callees(fn, sw, mod):
             if fn.dominates(tb, b.id):
                 for i in b.insts:
                     if i.op == "call" and i.get("callee") and not i["callee"].startswith("llvm."): cs.add(i["callee"])
+        # an arm that has become a file-local helper: what the helper calls is what the arm calls
+        work = [c for c in cs if mod.fn(c) is not None and mod.fn(c).internal and mod.fn(c).blocks]; seen = set()
+        while work:
+            h = work.pop()
+            if h in seen: continue
+            seen.add(h)
+            for i in mod.fn(h).calls():
+                c2 = i.get("callee")
+                if not c2 or c2.startswith("llvm."): continue
+                cs.add(c2)
+                if mod.fn(c2) is not None and mod.fn(c2).internal and mod.fn(c2).blocks: work.append(c2)
         for v in vals: out[v] = cs
     return out
 
@@ -175,6 +186,16 @@ def analyse(mod, run, label):
     run.check(same(enc, sw.ops[0], T), "A1-dispatch-on-type", None, Finding("A1-dispatch-differs", enc.name, "switch", "operand", "the encoder dispatches on a value other than encodingType", loc=loc(sw)))
     mparam = enc.param_index("meta")
     mst = [i for i in enc.insts() if i.op == "store" and mparam is not None and fi.ptr(i.ops[1])[0] == ("arg", mparam) and i["size"] == 4 and same(enc, i.ops[0], T)]
+    if not mst and mparam is not None:
+        # the metadata may be filled by a file-local helper that is handed the type: the helper must store that argument into encodingType
+        for c in enc.calls():
+            h = mod.fn(c.get("callee") or "")
+            if h is None or not h.internal or not h.blocks: continue
+            if not any(c.ops[k]["t"].endswith("*") and fi.ptr(c.ops[k])[0] == ("arg", mparam) for k in range(c["nargs"])): continue
+            for j in range(c["nargs"]):
+                if c.ops[j]["t"].endswith("*") or not same(enc, c.ops[j], T): continue
+                for st in h.insts():
+                    if st.op == "store" and field_of(h, mod, st.ops[1]) == "encodingType" and same(h, st.ops[0], {"k": "arg", "v": j}): mst.append(st)
     run.check(bool(mst), "A1-reported-type-is-type", None, Finding("A1-reported-type-differs", enc.name, "meta->encodingType", "store", "meta->encodingType is not stored the dispatched encodingType"))
     calls = [i for i in top.calls() if i.get("callee") == "varintAdaptiveEncodeWith"]; sels = [i for i in top.calls() if i.get("callee") == "varintAdaptiveSelectEncoding"]
     okt = len(calls) == 1 and len(sels) == 1 and same(top, calls[0].ops[3], {"k": "inst", "v": sels[0].id})
@@ -267,6 +288,11 @@ def analyse(mod, run, label):
     if not fits: raise AnalysisBroken("A5: no store to fitsInBitmapRange in varintAdaptiveAnalyze")
     # the BITMAP arm: every varintBitmapAdd is guarded by value < K2, and its argument is that value truncated to 16 bits
     adds = [i for i in enc.calls() if i.get("callee") == "varintBitmapAdd"]
+    if not adds and label in ("ndebug", "asserts", "native"):
+        # the arm may have become a file-local helper: look at the encoder with its helpers inlined
+        m5, enc5 = with_helpers_inlined(mod, enc, label)
+        if m5 is not None and any(i.get("callee") == "varintBitmapAdd" for i in enc5.calls()):
+            enc = enc5; fi = World(m5).fi(enc).prepare(); adds = [i for i in enc.calls() if i.get("callee") == "varintBitmapAdd"]
     if not adds: raise AnalysisBroken("A5: the encoder's BITMAP arm does not call varintBitmapAdd")
     enc.dom(); kept = []
     def canon(o):
